@@ -641,11 +641,11 @@ var scalarTypes = map[string]int{
 
 // Types declared by the imports the subset knows ('m' message, 'e' enum).
 var importedTypes = map[string]map[string]byte{
-	"google/api/annotations.proto":    {},
-	"google/protobuf/timestamp.proto": {"google.protobuf.Timestamp": 'm'},
-	"google/protobuf/duration.proto":  {"google.protobuf.Duration": 'm'},
-	"google/protobuf/empty.proto":     {"google.protobuf.Empty": 'm'},
-	"google/protobuf/any.proto":       {"google.protobuf.Any": 'm'},
+	"google/api/annotations.proto":     {},
+	"google/protobuf/timestamp.proto":  {"google.protobuf.Timestamp": 'm'},
+	"google/protobuf/duration.proto":   {"google.protobuf.Duration": 'm'},
+	"google/protobuf/empty.proto":      {"google.protobuf.Empty": 'm'},
+	"google/protobuf/any.proto":        {"google.protobuf.Any": 'm'},
 	"google/protobuf/field_mask.proto": {"google.protobuf.FieldMask": 'm'},
 	"google/protobuf/struct.proto": {"google.protobuf.Struct": 'm', "google.protobuf.Value": 'm',
 		"google.protobuf.ListValue": 'm', "google.protobuf.NullValue": 'e'},
@@ -802,7 +802,9 @@ func descFromSource(src string) (*Desc, error) {
 		}
 		st[name] = k
 	}
-	join := func(scope []string, n string) string { return strings.Join(append(append([]string(nil), scope...), n), ".") }
+	join := func(scope []string, n string) string {
+		return strings.Join(append(append([]string(nil), scope...), n), ".")
+	}
 	var declEnum func(scope []string, e *pEnum)
 	declEnum = func(scope []string, e *pEnum) {
 		add(join(scope, e.name), 'e')
